@@ -18,6 +18,7 @@ import (
 	"encoding/json"
 	"flag"
 	"fmt"
+	"go/ast"
 	"go/parser"
 	"go/token"
 	"os"
@@ -132,6 +133,7 @@ func main() {
 	if nosync {
 		applyPerfPatches(*repo, *out, replace)
 	}
+	extractCloneBracket(*repo, *out, replace)
 	keys := make([]string, 0, len(replace))
 	for k := range replace {
 		keys = append(keys, k)
@@ -177,6 +179,57 @@ func applyPerfPatches(repo, out string, replace map[string]string) {
 		}
 		replace[target] = dst
 	}
+}
+
+// extractCloneBracket copies, verbatim, the statement of app.startReplica that brackets a clone with its status
+// (inProgress -> CloneReplica -> completed / error, or NA) into a generated function app.VerifCloneBracket, so that the
+// clone scenario of engine E-F runs the repository's CURRENT text of that bracket instead of a re-statement.
+// startReplica itself is an unexported CLI action that listens on sockets and cannot be called from a harness.
+// If the statement cannot be found the generated function reports that (only the C19 check is affected).
+func extractCloneBracket(repo, out string, replace map[string]string) {
+	target := filepath.Join(repo, "app", "replica.go")
+	srcPath := target
+	if r, ok := replace[target]; ok {
+		srcPath = r
+	}
+	stub := func(why string) string {
+		return "//go:build verif\n\npackage app\n\nimport (\n\t\"fmt\"\n\n\t\"github.com/openebs/jiva/replica\"\n)\n\n// VerifCloneBracket: extraction failed (" + why + ")\nfunc VerifCloneBracket(s *replica.Server, address, cloneIP, snapName, replicaType string) (err error) {\n\treturn fmt.Errorf(\"verif: the clone status bracket of app.startReplica could not be extracted: " + why + "\")\n}\n"
+	}
+	text := ""
+	src, err := os.ReadFile(srcPath)
+	if err == nil {
+		fset := token.NewFileSet()
+		f, perr := parser.ParseFile(fset, "replica.go", src, 0)
+		if perr == nil {
+			ast.Inspect(f, func(n ast.Node) bool {
+				fd, ok := n.(*ast.FuncDecl)
+				if !ok || fd.Name.Name != "startReplica" || fd.Body == nil {
+					return true
+				}
+				for _, st := range fd.Body.List {
+					ifs, ok := st.(*ast.IfStmt)
+					if !ok {
+						continue
+					}
+					cond := string(src[fset.Position(ifs.Cond.Pos()).Offset:fset.Position(ifs.Cond.End()).Offset])
+					if strings.Contains(cond, "replicaType") && strings.Contains(cond, "\"clone\"") {
+						text = string(src[fset.Position(ifs.Pos()).Offset:fset.Position(ifs.End()).Offset])
+					}
+				}
+				return false
+			})
+		}
+	}
+	code := stub("statement `if replicaType == \\\"clone\\\" ...` not found in startReplica")
+	if text != "" {
+		code = "//go:build verif\n\n// Code generated by /verif/tools/gen from app/replica.go startReplica; DO NOT EDIT.\npackage app\n\nimport (\n\t\"github.com/openebs/jiva/replica\"\n\t\"github.com/sirupsen/logrus\"\n)\n\nvar _ = logrus.Infof\n\n// VerifCloneBracket is the verbatim clone-status bracket of startReplica.\nfunc VerifCloneBracket(s *replica.Server, address, cloneIP, snapName, replicaType string) (err error) {\n\t" + text + "\n\treturn nil\n}\n"
+	}
+	dst := filepath.Join(out, "app", "zz_verif_clone.go")
+	os.MkdirAll(filepath.Dir(dst), 0755)
+	if err := writeIfChanged(dst, []byte(code)); err != nil {
+		die("%v", err)
+	}
+	replace[filepath.Join(repo, "app", "zz_verif_clone.go")] = dst
 }
 
 func writeIfChanged(p string, b []byte) error {
